@@ -121,7 +121,9 @@ def gen_path_case(rng) -> dict:
     term = Term(t)
     links = [rng.choice(["field", "self_opt", "self_list"]) for _ in range(rng.choice([0, 1, 1, 2]))]
     ncls = 1 + sum(1 for x in links if x == "field")
-    supports = [True] + [rng.random() < 0.65 for _ in range(ncls - 1)]
+    # the called class itself may lack ADD_DIALECT_SUPPORT: from_dict(..., dialect=D) is then accepted and ignored
+    # (every generated from_dict has a `dialect` parameter), to_dict(dialect=D) would be a TypeError and is not called
+    supports = [rng.random() < 0.85] + [rng.random() < 0.65 for _ in range(ncls - 1)]
     av = ["F1", "F2"]
     for lvl in ENTRY_LEVELS[entry]:
         for nd in term.nodes:
@@ -131,7 +133,9 @@ def gen_path_case(rng) -> dict:
     p = rng.choice([0.08, 0.15, 0.3, 0.5])
     slots = {}
     for s in av:
-        if rng.random() < (min(p, 0.12) if s in ("F1", "F2") else p):
+        # the outermost position beats everything below it: keep its slots rarer so that deeper positions get to win
+        q = min(p, 0.12) if s in ("F1", "F2") else p * 0.4 if ".n0." in s else p
+        if rng.random() < q:
             slots[s] = rng.choice(["both", "ser", "de", "pt"]) if s == "F1" else rng.choice(["strat", "pt"]) if s == "F2" else rng.choice(VARIANTS)
     return {"entry": entry, "type": t, "links": links, "supports": supports, "slots": slots,
             "decoys": [rng.random() < 0.6 for _ in range(ncls)], "use_call": "call" in ENTRY_LEVELS[entry] and rng.random() < 0.8}
@@ -376,8 +380,8 @@ def build_source(case, prelude: str) -> str:
         else:
             sel_s += f"['kids{j}'][0]"; sel_d += f".kids{j}[0]"
     sel_s += "['x']"; sel_d += ".x"
-    kw = "dialect=CallD" if has["call"] else ""
-    ckw = ", " + kw if kw else ""
+    ckw = ", dialect=CallD" if has["call"] else ""
+    kw = "dialect=CallD" if (has["call"] and case["supports"][0]) else ""
     if entry == "mixin":
         ser, de = f"{inner_obj}.to_dict({kw}){sel_s}", f"C0.from_dict({inner_wire}{ckw}){sel_d}"
     elif entry == "mixin_fmt":
@@ -475,7 +479,7 @@ def coq_case(case, d, obs) -> str:
         else:
             cfgs.append(f"({cls[i]}, (None, []))")
     call_ents = tab("call") if "call" in ENTRY_LEVELS[entry] else []
-    if case["use_call"]:
+    if case["use_call"] and case["supports"][0]:
         call = "Some [" + "; ".join(call_ents or ["(KObj 18, VDict (Some (FFn 90)) (Some (FFn 190)))"]) + "]"
     else:
         call = "None"
